@@ -272,6 +272,13 @@ def run_misc(ctx):
               "2015051210", "151205", "31122015", "20153112", "1231", "12", "2015-05", "052015"]:
         for pi in range(len(BASE_PAIRS)):
             relations(ctx, s, "en", NSP, kind="no-spaces", pair=pi, pref=PREFS[pi % 3])
+    # a colon-separated clock time states no calendar part at all, whichever parser reads it
+    # (the opt-in no-spaces parser strips the colons and may read '10:45' as the date 10-4-5: it is not among the parsers
+    # the property quantifies over, so the clock times go through the listed parsers only)
+    for s in ["10:45", "10:45:30", "23:59", "00:00:01"]:
+        for pi in (0, 2, 4):
+            relations(ctx, s, "en", ABS, parts_present=["T"], kind="clock-time", pair=pi, pref=PREFS[pi % 3])
+        ctx.count("misc:clock-time")
         ctx.count("misc:nospaces")
     for s in ["00/03/2012", "03/00/2012", "00.03.2012", "2012-00-15", "2012-05-00", "00 May 2015", "May 00, 2015", "0/0/2015",
               "00-00-2015", "15/00", "00/2015"]:
